@@ -147,8 +147,8 @@ impl Prop for C06 {
 	}
 	fn budget(&self, tier: Tier) -> (u64, u64) {
 		match tier {
-			Tier::Quick => (40_000, 60),
-			Tier::Thorough => (1_500_000, 900),
+			Tier::Quick => (100_000, 90),
+			Tier::Thorough => (2_000_000, 1200),
 		}
 	}
 
